@@ -51,6 +51,12 @@ NATIVE = {
     'n_elf_sections_tag_layout': dict(crate='multiboot2', file='elf_sections.rs', props=['C19', 'C01', 'C04'],
         bound='every declared size 20..=219 of an ELF-sections tag (0..=3 ELF64 entries of 64 bytes), marker contents; plus one image with three distinct field words (201 cases)',
         functions=['ElfSectionsTag layout assumed by Verus (elf_tag_wf): fields at offsets 8/12/16, tail at offset 20 with size-20 elements, size_of_val; ElfSectionsTag::sections entry addresses (Kani cannot compile this type)']),
+    'n_hdr_getters_many_tags': dict(crate='multiboot2-header', file='header.rs', props=['C11'],
+        bound='10 getter kinds x {0,1,2,5,9..13,20,40,100,600,1100} filler tags (other kinds, cycling) x wanted kind present twice / absent (280 headers, up to ~16 KiB); every getter compared with the first tag of its type in the walk',
+        functions=['Multiboot2Header::get_tag and the ten typed getters beyond the Kani region sizes (Iterator::find with a closure is outside this Verus)']),
+    'n_mbi_getters_many_tags': dict(crate='multiboot2', file='boot_information.rs', props=['C04', 'C03'],
+        bound='20 getter kinds x {0,1,2,7,8,9,19..23,40,100,1100} filler tags x wanted kind present twice / absent, EFI map vs boot-services tag in both orders with 0/1/30 fillers, module iterator with 0/3/25 modules (572 regions); every getter compared with the first tag of its type in the walk',
+        functions=['BootInformation::get_tag and all typed getters, efi_memory_map_tag rule, module_tags beyond the Kani region sizes (Iterator::find / filter with closures are outside this Verus)']),
     'n_builder_roundtrip': dict(crate='multiboot2', file='builder.rs', props=['C06'],
         bound='real Builder run natively on 1711 cases: empty, full, every single slot, every 18-of-19 subset, all pairs, 1500 pseudo-random subsets (seeded by VERIF_SEED); three call orders; repeated setter calls; 0..=3 modules (descending addresses) / SMBIOS / custom tags (duplicate id) interleaved; oracle = supplied tag images in the documented order + end tag vs BootInformation::load(..).tags()',
         functions=['Builder::build and all setters on COMPILED code (cross-check of the Verus proof; Kani cannot compile the builder)']),
